@@ -1,7 +1,7 @@
 #!/bin/bash
 # seedrun.sh <patch.diff> <prop> [<prop>...] — apply a seeded change to /repo, run the checks, undo it.
 set -u
-patch="$1"; shift
+patch="$(realpath "$1")"; shift
 cd /verif
 if ! git -C /repo diff --quiet; then echo "repo dirty, abort"; exit 2; fi
 git -C /repo apply "$patch" || { echo "patch does not apply"; exit 2; }
